@@ -4,6 +4,7 @@ DELEGATECALL / STATICCALL of the reference EVM, and with it one whole step of th
 directions.
 -/
 import HalmosVerif.Lemmas.SevmCallRel
+import HalmosVerif.Lemmas.SevmCallBal
 
 set_option linter.unusedSectionVars false
 set_option linter.unusedSimpArgs false
@@ -86,13 +87,13 @@ end
 
 section
 variable {I : Interp} {s : Simp} {cfg : Cfg} {codes : List (Nat × List Nat)} {cs : CState} {op t : Nat}
-variable {fundOk : Bool}
+variable {fund : Option T} {o : Oracle}
 
 theorem callArgs_cases (hs : SimpSound s) {r : List HV} {cr : List Nat} (hr : StackRel I r cr) :
-    (callArgs s cfg codes cs op t fundOk r = localHalt cs.st .stackUnderflow ∧ cr.length < 4) ∨
-    (callArgs s cfg codes cs op t fundOk r = localStuck cs.st .notConcrete) ∨
+    (callArgs s o cfg codes cs op t fund r = localHalt cs.st .stackUnderflow ∧ cr.length < 4) ∨
+    (callArgs s o cfg codes cs op t fund r = localStuck cs.st .notConcrete) ∨
     (∃ ao al ro rl rest crest, cr = ao :: al :: ro :: rl :: crest ∧ StackRel I rest crest ∧
-      callArgs s cfg codes cs op t fundOk r = callGo s cfg codes cs op t fundOk ao al ro rl rest) := by
+      callArgs s o cfg codes cs op t fund r = callGo s o cfg codes cs op t fund ao al ro rl rest) := by
   cases r with
   | nil => left; rw [hr.nil_inv]; exact ⟨rfl, by simp⟩
   | cons alv r1 =>
@@ -162,7 +163,7 @@ def CallCorr (lo : LocalOut) : Prop :=
   (∃ e, lo = { ends := [e] } ∧ e.st = cs.st ∧ ((∃ r', e.out = .stuck r') ∨ e.tag ≠ .normal)) ∨
   (∃ h, lo = localHalt cs.st h ∧ haltWith h [] = h ∧ Evm.step p w f = .halt w h) ∨
   (∃ cs' w' f' kcs', lo = { next := [cs'] } ∧ cs'.st.path = cs.st.path ∧ RelC I p S w0 cs' w' f' kcs' ∧
-      ∀ r, RunStack p w f kcs r ↔ RunStack p w' f' kcs' r)
+      (∀ r, RunStack p w f kcs r ↔ RunStack p w' f' kcs' r) ∧ (BBAll w kcs → BBAll w' kcs'))
 
 end
 
@@ -173,43 +174,112 @@ variable {s : Simp} {cfg : Cfg} {codes : List (Nat × List Nat)}
 
 /-- the context of the callee: the symbolic environment `call_known` builds (msg.sender, address(this), msg.value,
     calldata, static flag — per call kind) denotes the context of the frame the reference starts -/
-theorem calleeOf_envRel (hs : SimpSound s) {op t ao al ro rl : Nat} {rest : List HV} {prog : List Nat}
+theorem calleeOfG_envRel (hs : SimpSound s) {op t ao al ro rl : Nat} {rest : List HV} {prog : List Nat}
+    {cv : T} {v : Nat} {sb : List (T × T)}
     {g : Evm.Frame} (hRk : R I cs.env cs.code p { cs.st with stack := rest } g)
-    (hcall : op = 0xf1 ∨ op = 0xf2 ∨ op = 0xf4 ∨ op = 0xfa) (ht : t < 2 ^ 160) :
-    EnvRel I (calleeOf s cs op t ao al ro rl rest prog).env p (calleeFrame op g w t ao al) := by
+    (hcall : op = 0xf1 ∨ op = 0xf2 ∨ op = 0xf4 ∨ op = 0xfa) (ht : t < 2 ^ 160)
+    (hcv : cv.WF ∧ cv.width ≤ 256 ∧ cv.eval I = v) :
+    EnvRel I (calleeOfG s cs op t ao al ro rl rest prog cv sb).env p (calleeFrameV op g w t v ao al) := by
   have hargs : MemRel I (readMem cs.st.mem ao al) (Evm.readBytes g.mem ao al) := readMem_rel hRk.mem ao al
   have haddr := hRk.env.address
   have hcaller := hRk.env.caller
   have hval := hRk.env.callvalue
-  simp only [calleeOf]
+  simp only [calleeOfG]
   refine ⟨?_, hRk.env.origin, ?_, ?_, fun off => ?_, fun i => ?_, ?_, ?_⟩
   · rcases hcall with rfl | rfl | rfl | rfl <;>
-      simp only [calleeFrame, Nat.reduceEqDiff, if_true, if_false] <;>
+      simp only [calleeFrameV, Nat.reduceEqDiff, if_true, if_false] <;>
       first | exact haddr | exact hcaller
   · rcases hcall with rfl | rfl | rfl | rfl <;>
-      simp only [calleeFrame, Nat.reduceEqDiff, if_true, if_false] <;>
-      first | exact hval | exact ⟨(by decide : 0 < 256), Nat.le_refl _, rfl⟩
+      simp only [calleeFrameV, Nat.reduceEqDiff, if_true, if_false] <;>
+      first | exact hval | exact hcv
   · have hlit : (T.lit 160 t).WF ∧ (T.lit 160 t).width ≤ 256 ∧ (T.lit 160 t).eval I = t :=
       ⟨(by decide : 0 < 160), (by decide : 160 ≤ 256), Nat.mod_eq_of_lt ht⟩
     rcases hcall with rfl | rfl | rfl | rfl <;>
-      simp [calleeFrame] <;>
+      simp [calleeFrameV] <;>
       first | exact hlit | exact haddr
   · have hw := readMem_rel hargs off 32
     obtain ⟨a1, a2, a3⟩ := wordOfBytes_rel (I := I) hs hw.1 (readMem_length _ _ _)
     refine ⟨a1, a2, ?_⟩
     rw [a3, hw.2]; rfl
   · exact hargs.getD i
-  · simp [calleeFrame, Evm.readBytes]
-  · rcases hcall with rfl | rfl | rfl | rfl <;> simp [calleeFrame, hRk.env.isStatic]
+  · simp [calleeFrameV, Evm.readBytes]
+  · rcases hcall with rfl | rfl | rfl | rfl <;> simp [calleeFrameV, hRk.env.isStatic]
+
+theorem calleeOf_envRel (hs : SimpSound s) {op t ao al ro rl : Nat} {rest : List HV} {prog : List Nat}
+    {g : Evm.Frame} (hRk : R I cs.env cs.code p { cs.st with stack := rest } g)
+    (hcall : op = 0xf1 ∨ op = 0xf2 ∨ op = 0xf4 ∨ op = 0xfa) (ht : t < 2 ^ 160) :
+    EnvRel I (calleeOf s cs op t ao al ro rl rest prog).env p (calleeFrame op g w t ao al) :=
+  calleeOfG_envRel hs hRk hcall ht ⟨(by decide : 0 < 256), Nat.le_refl _, rfl⟩
+
+/-- the callee `call_known` starts against the frame the reference starts: `csx` is the caller at the call (operands
+    still on its stack, conditions appended, value moved), `g` the concrete caller with the operands popped and the
+    memory areas touched, `wS` the world saved for a rollback, `wT` the world the callee starts in -/
+theorem relC_callee (hs : SimpSound s) (hS : ∀ a prog, codeOf codes a = some prog → S a)
+    (hcb : ∀ a prog, codeOf codes a = some prog → ∀ b ∈ prog, b < 256)
+    {csx : CState} {wS wT : Evm.World} {g : Evm.Frame} {op t ao al ro rl : Nat} {rest : List HV} {prog : List Nat}
+    {cv : T} {v : Nat} {sb : List (T × T)}
+    (hRk : R I csx.env csx.code p { csx.st with stack := rest } g) (hthis : g.this = csx.this) (hinS : S csx.this)
+    (hdepth : g.depth = csx.depth) (hcode : ∀ b ∈ csx.code, b < 256)
+    (hWT : WRelM I S w0 wT (viewOf csx) (evalLogs I csx.logs) (balSem I w0 csx.bal)) (hbal : ChainWF csx.bal)
+    (hWS : WRelM I S w0 wS (viewOf csx) (evalLogs I csx.logs) (balSem I w0 sb)) (hsb : ChainWF sb)
+    (hconts : List.Forall₂ (ContRel I p S w0) csx.conts kcs) (hc : codeOf codes t = some prog)
+    (hwcode : wS.codeOf t = codeOf codes t) (hcall : op = 0xf1 ∨ op = 0xf2 ∨ op = 0xf4 ∨ op = 0xfa)
+    (ht : t < 2 ^ 160) (hcv : cv.WF ∧ cv.width ≤ 256 ∧ cv.eval I = v) :
+    RelC I p S w0 (calleeOfG s csx op t ao al ro rl rest prog cv sb) wT (calleeFrameV op g wS t v ao al)
+      (⟨wS, g, ro, rl⟩ :: kcs) := by
+  have hstores : ∀ a, stoOf (stoSet csx.stores csx.this
+      { storage := csx.st.storage, transient := csx.st.transient }) a = viewOf csx a := by
+    intro a; rw [stoOf_stoSet]; rfl
+  have henv := calleeOfG_envRel (w := wS) (ao := ao) (al := al) (ro := ro) (rl := rl) (prog := prog) (sb := sb)
+    hs hRk hcall ht hcv
+  simp only [calleeOfG] at henv ⊢
+  refine ⟨⟨?_, rfl, StackRel.nil, henv, hRk.subst.same rfl rfl, MemRel.nil I, MemRel.nil I⟩, ?_, ?_, ?_,
+    hcb t prog hc, ?_, hbal,
+    List.Forall₂.cons ⟨hRk, hthis, hinS, hdepth, hcode, rfl, rfl, hWS.congr (fun a _ => hstores a), hsb⟩ hconts⟩
+  · simp [calleeFrameV, hwcode, hc]
+  · rcases hcall with rfl | rfl | rfl | rfl <;> simp [calleeFrameV, hthis]
+  · rcases hcall with rfl | rfl | rfl | rfl <;>
+      simp only [Nat.reduceEqDiff, or_true, true_or, or_self, if_true, if_false] <;>
+      first | exact hS t prog hc | exact hinS
+  · show g.depth + 1 = csx.depth + 1
+    rw [hdepth]
+  · exact (hWT.congr (fun a _ => hstores a)).congr (fun a _ => view_eta _ _ a)
+
+/-- the caller going on after a call that returned nothing (a target without code: `ok = true`, or a call that could
+    not be paid: `ok = false`), against the concrete caller `g'` -/
+theorem relC_goOn {csx : CState} {w' : Evm.World} {g g' : Evm.Frame} {rest : List HV} {ok : Bool}
+    (hRk : R I csx.env csx.code p { csx.st with stack := rest } g) (hthis : g.this = csx.this) (hinS : S csx.this)
+    (hdepth : g.depth = csx.depth) (hcode : ∀ b ∈ csx.code, b < 256)
+    (hW : WRelM I S w0 w' (viewOf csx) (evalLogs I csx.logs) (balSem I w0 csx.bal)) (hbal : ChainWF csx.bal)
+    (hconts : List.Forall₂ (ContRel I p S w0) csx.conts kcs)
+    (hctx : g'.code = g.code ∧ g'.caller = g.caller ∧ g'.value = g.value ∧ g'.this = g.this ∧
+      g'.calldata = g.calldata ∧ g'.isStatic = g.isStatic ∧ g'.depth = g.depth)
+    (hpc : g'.pc = g.pc + 1) (hstk : g'.stack = (if ok then 1 else 0) :: g.stack) (hmem : g'.mem = g.mem)
+    (hrd : g'.returndata = []) {pc0 : Nat} (hpc0 : pc0 = csx.st.pc) :
+    RelC I p S w0 { csx with st := { csx.st with pc := pc0 + 1, stack := .bv 256 (.con (if ok then 1 else 0)) :: rest,
+                                                 returndata := [] } } w' g' kcs := by
+  obtain ⟨c1, c2, c3, c4, c5, c6, c7⟩ := hctx
+  subst hpc0
+  refine ⟨⟨c1.trans hRk.code, ?_, ?_, hRk.env.congr c2 c3 c4 c5 c6, hRk.subst.same rfl rfl, ?_, ?_⟩, c4.trans hthis,
+    hinS, c7.trans hdepth, hcode, hW.congr (fun a _ => rfl), hbal, hconts⟩
+  · show g'.pc = csx.st.pc + 1
+    rw [hpc, hRk.pc]
+  · rw [hstk]
+    refine StackRel.cons ?_ hRk.stack
+    cases ok
+    · exact wordRel_con (by norm_num)
+    · exact wordRel_con (by norm_num)
+  · rw [hmem]; exact hRk.mem
+  · rw [hrd]; exact MemRel.nil I
 
 theorem callGo_corr (hs : SimpSound s) (hmem : cfg.maxMem + 32 ≤ p.memLimit) (hdep : 1024 ≤ p.maxDepth)
     (hcodes : ∀ a, w0.codeOf a = codeOf codes a) (hS : ∀ a prog, codeOf codes a = some prog → S a)
     (hcb : ∀ a prog, codeOf codes a = some prog → ∀ b ∈ prog, b < 256)
     (hrel : RelC I p S w0 cs w f kcs) {op : Nat} (hcall : op = 0xf1 ∨ op = 0xf2 ∨ op = 0xf4 ∨ op = 0xfa)
-    {t v ao al ro rl : Nat} {rest : List HV} {crest : List Nat} (hrest : StackRel I rest crest) (ht : t < 2 ^ 160)
-    {fundOk : Bool} (hv : fundOk = true → v = 0)
-    (hstep : Evm.step p w f = .call op w { f with stack := crest } t v ao al ro rl) :
-    CallCorr I p S w0 cs w f kcs (callGo s cfg codes cs op t fundOk ao al ro rl rest) := by
+    {t ao al ro rl : Nat} {rest : List HV} {crest : List Nat} (hrest : StackRel I rest crest) (ht : t < 2 ^ 160)
+    {o : Oracle}
+    (hstep : Evm.step p w f = .call op w { f with stack := crest } t 0 ao al ro rl) :
+    CallCorr I p S w0 cs w f kcs (callGo s o cfg codes cs op t none ao al ro rl rest) := by
   unfold callGo
   simp only
   by_cases h1 : al ≠ 0 ∧ ao + al > cfg.maxMem
@@ -218,12 +288,7 @@ theorem callGo_corr (hs : SimpSound s) (hmem : cfg.maxMem + 32 ≤ p.memLimit) (
   by_cases h2 : rl ≠ 0 ∧ ro + rl > cfg.maxMem
   · rw [if_pos h2]; exact Or.inl ⟨_, rfl, rfl, Or.inr (fun h => Tag.noConfusion h)⟩
   rw [if_neg h2]
-  cases fundOk with
-  | false => exact Or.inl ⟨_, rfl, rfl, Or.inl ⟨_, rfl⟩⟩
-  | true =>
-  have hv0 := hv rfl
-  subst hv0
-  simp only [Bool.not_true, Bool.false_eq_true, if_false]
+  simp only [Option.isSome_none, Bool.false_eq_true, if_false]
   by_cases h4 : specialAddr t = true
   · rw [if_pos h4]; exact Or.inl ⟨_, rfl, rfl, Or.inl ⟨_, rfl⟩⟩
   rw [if_neg h4]
@@ -258,7 +323,7 @@ theorem callGo_corr (hs : SimpSound s) (hmem : cfg.maxMem + 32 ≤ p.memLimit) (
   have hwcode : w.codeOf t = codeOf codes t := by
     have := hcodes t
     unfold Evm.World.codeOf at this ⊢
-    rw [hrel.hW.rest.1]; exact this
+    rw [hrel.hW.code]; exact this
   have hR := hrel.hR
   -- the suspended caller
   have hRk : R I cs.env cs.code p { cs.st with stack := rest } f1t :=
@@ -267,48 +332,26 @@ theorem callGo_corr (hs : SimpSound s) (hmem : cfg.maxMem + 32 ≤ p.memLimit) (
   cases hc : codeOf codes t with
   | none =>
     simp only
-    refine Or.inr (Or.inr ⟨_, w, resumeFrame ⟨w, f1t, ro, rl⟩ (.success []), kcs, rfl, rfl, ?_, fun r => ?_⟩)
-    · refine ⟨⟨?_, ?_, ?_, ?_, hR.subst.same rfl rfl, ?_, MemRel.nil I⟩, ?_, hrel.inS, ?_, hrel.hcode, ?_, hrel.conts⟩
-      · exact e_code.trans hR.code
-      · show f1t.pc + 1 = cs.st.pc + 1
-        rw [e_pc, hR.pc]
-      · exact StackRel.cons (wordRel_con (by norm_num)) hRk.stack
-      · exact hR.env.congr e_caller e_value e_this e_cd e_static
-      · show MemRel I cs.st.mem (Evm.writeBytes f1t.mem ro _)
-        simp only [Evm.Halt.data, List.take_nil, writeBytes_nil]
-        rw [e_mem]; exact hR.mem
-      · exact e_this.trans hrel.this
-      · exact e_depth.trans hrel.depth
-      · exact hrel.hW.congr (fun a _ => rfl)
+    refine Or.inr (Or.inr ⟨_, w, resumeFrame ⟨w, f1t, ro, rl⟩ (.success []), kcs, rfl, rfl, ?_, fun r => ?_,
+      fun hbb => hbb⟩)
+    · exact relC_goOn (ok := true) (g' := resumeFrame ⟨w, f1t, ro, rl⟩ (.success [])) hRk (e_this.trans hrel.this)
+        hrel.inS (e_depth.trans hrel.depth) hrel.hcode hrel.hW hrel.hbal hrel.conts
+        ⟨rfl, rfl, rfl, rfl, rfl, rfl, rfl⟩ rfl rfl (by simp [resumeFrame, Evm.Halt.data, writeBytes_nil]) rfl rfl
     · refine (hiff r).trans ?_
       have hstop : Evm.step p w (calleeFrame op f1t w t ao al) = .halt w (.success []) := by
         apply evm_stop
-        · simp [calleeFrame, hwcode, hc]
-        · simp [calleeFrame]
+        · simp [calleeFrame, calleeFrameV, hwcode, hc]
+        · simp [calleeFrame, calleeFrameV]
       exact runStack_halt_cons hstop _ kcs r
   | some prog =>
-    simp only [calleeOf]
-    refine Or.inr (Or.inr ⟨_, w, calleeFrame op f1t w t ao al, ⟨w, f1t, ro, rl⟩ :: kcs, rfl, rfl, ?_, hiff⟩)
-    have hstores : ∀ a, stoOf (stoSet cs.stores cs.this
-        { storage := cs.st.storage, transient := cs.st.transient }) a = viewOf cs a := by
-      intro a; rw [stoOf_stoSet]; rfl
-    have hWs : WRelM I S w0 w (stoOf (stoSet cs.stores cs.this
-        { storage := cs.st.storage, transient := cs.st.transient })) (evalLogs I cs.logs) :=
-      hrel.hW.congr (fun a _ => hstores a)
-    refine ⟨⟨?_, rfl, StackRel.nil, ?_, hR.subst.same rfl rfl, MemRel.nil I, MemRel.nil I⟩, ?_, ?_, ?_, hcb t prog hc, ?_,
-      List.Forall₂.cons ⟨hRk, e_this.trans hrel.this, hrel.inS, e_depth.trans hrel.depth, hrel.hcode, rfl, rfl, hWs⟩
-        hrel.conts⟩
-    · simp [calleeFrame, hwcode, hc]
-    · simpa only [calleeOf] using calleeOf_envRel (w := w) (ao := ao) (al := al) (ro := ro) (rl := rl) (prog := prog) hs hRk hcall ht
-    · -- this
-      rcases hcall with rfl | rfl | rfl | rfl <;> simp [calleeFrame, e_this, hrel.this]
-    · -- a modelled account
-      rcases hcall with rfl | rfl | rfl | rfl <;>
-        simp only [Nat.reduceEqDiff, or_true, true_or, or_self, if_true, if_false] <;>
-        first | exact hS t prog hc | exact hrel.inS
-    · show f1t.depth + 1 = cs.depth + 1
-      rw [e_depth, hrel.depth]
-    · exact hWs.congr (fun a _ => view_eta _ _ a)
+    simp only
+    refine Or.inr (Or.inr ⟨_, w, calleeFrame op f1t w t ao al, ⟨w, f1t, ro, rl⟩ :: kcs, rfl, rfl, ?_, hiff,
+      fun hbb => ⟨hbb.1, fun kc hm => by
+        rcases List.mem_cons.1 hm with rfl | hm
+        · exact hbb.1
+        · exact hbb.2 kc hm⟩⟩)
+    exact relC_callee hs hS hcb hRk (e_this.trans hrel.this) hrel.inS (e_depth.trans hrel.depth) hrel.hcode
+      hrel.hW hrel.hbal hrel.hW hrel.hbal hrel.conts hc hwcode hcall ht ⟨(by decide : 0 < 256), Nat.le_refl _, rfl⟩
 
 end
 
@@ -317,13 +360,23 @@ variable {I : Interp} {p : Evm.Params} {S : Nat → Prop} {w0 : Evm.World}
 variable {cs : CState} {w : Evm.World} {f : Evm.Frame} {kcs : List CCont}
 variable {s : Simp} {cfg : Cfg} {codes : List (Nat × List Nat)}
 
-/-- **the call instructions.** -/
-theorem callOut_corr (hs : SimpSound s) (hmem : cfg.maxMem + 32 ≤ p.memLimit) (hdep : 1024 ≤ p.maxDepth)
+/-- a CALL / CALLCODE whose value is not the literal 0, all operands decoded: the value term `fv` denotes the concrete
+    value `v`, and the reference is at the call -/
+def ValueCase (I : Interp) (p : Evm.Params) (s : Simp) (o : Oracle) (cfg : Cfg) (codes : List (Nat × List Nat))
+    (cs : CState) (w : Evm.World) (f : Evm.Frame) (op : Nat) (lo : LocalOut) : Prop :=
+  ∃ (t v : Nat) (fv : T) (ao al ro rl : Nat) (rest : List HV) (crest : List Nat),
+    lo = callGo s o cfg codes cs op t (some fv) ao al ro rl rest ∧ (op = 0xf1 ∨ op = 0xf2) ∧
+    StackRel I rest crest ∧ t < 2 ^ 160 ∧ fv.WF ∧ fv.width = 256 ∧ fv.eval I = v ∧
+    Evm.step p w f = .call op w { f with stack := crest } t v ao al ro rl
+
+/-- **the call instructions**: a zero-value call (`CallCorr`) or a value-bearing one (`ValueCase`). -/
+theorem callOut_corr {o : Oracle} (hs : SimpSound s) (hmem : cfg.maxMem + 32 ≤ p.memLimit) (hdep : 1024 ≤ p.maxDepth)
     (hcodes : ∀ a, w0.codeOf a = codeOf codes a) (hS : ∀ a prog, codeOf codes a = some prog → S a)
     (hcb : ∀ a prog, codeOf codes a = some prog → ∀ b ∈ prog, b < 256)
     (hrel : RelC I p S w0 cs w f kcs) {op : Nat} (hop : opAt cs.code cs.st.pc = op)
     (hcall : op = 0xf1 ∨ op = 0xf2 ∨ op = 0xf4 ∨ op = 0xfa) (hl : ¬ cs.st.stack.length > 1024) :
-    CallCorr I p S w0 cs w f kcs (callOut s cfg codes cs op) := by
+    CallCorr I p S w0 cs w f kcs (callOut s o cfg codes cs op) ∨
+      ValueCase I p s o cfg codes cs w f op (callOut s o cfg codes cs op) := by
   have hR := hrel.hR
   have hopc : (f.code[f.pc]?).getD 0 = op := hR.op_eq.trans hop
   have hlen := hR.stack.length
@@ -339,10 +392,10 @@ theorem callOut_corr (hs : SimpSound s) (hmem : cfg.maxMem + 32 ≤ p.memLimit) 
   unfold callOut
   simp only
   cases hst : cs.st.stack with
-  | nil => exact Or.inr (Or.inl ⟨_, rfl, rfl, hunder (by rw [← hlen, hst]; simp)⟩)
+  | nil => exact Or.inl (Or.inr (Or.inl ⟨_, rfl, rfl, hunder (by rw [← hlen, hst]; simp)⟩))
   | cons gv r =>
     cases r with
-    | nil => exact Or.inr (Or.inl ⟨_, rfl, rfl, hunder (by rw [← hlen, hst]; simp)⟩)
+    | nil => exact Or.inl (Or.inr (Or.inl ⟨_, rfl, rfl, hunder (by rw [← hlen, hst]; simp)⟩))
     | cons tov r0 =>
       simp only
       rw [hst] at hstk
@@ -358,24 +411,47 @@ theorem callOut_corr (hs : SimpSound s) (hmem : cfg.maxMem + 32 ≤ p.memLimit) 
           | nil =>
             have := hr0.nil_inv
             subst this
-            exact Or.inr (Or.inl ⟨_, rfl, rfl, hunder (by rw [hc1]; simp)⟩)
+            exact Or.inl (Or.inr (Or.inl ⟨_, rfl, rfl, hunder (by rw [hc1]; simp)⟩))
           | cons fv r1 =>
             obtain ⟨v, c2, hc2, hwv, hr1⟩ := hr0.cons_inv
             subst hc2
             simp only
-            rcases callArgs_cases (cfg := cfg) (codes := codes) (cs := cs) (op := op) (t := t) hs hr1 with
-              ⟨e, hlt⟩ | e | ⟨ao, al, ro, rl, rest, crest, hcr, hrest, e⟩
+            generalize hfund : fundOf s fv = fund
+            rcases callArgs_cases (o := o) (cfg := cfg) (codes := codes) (cs := cs) (op := op) (t := t) (fund := fund)
+                hs hr1 with ⟨e, hlt⟩ | e | ⟨ao, al, ro, rl, rest, crest, hcr, hrest, e⟩
             · rw [e]
-              exact Or.inr (Or.inl ⟨_, rfl, rfl, evm_call7_short hopc h7 hlc (by rw [hc1]; simp; omega)⟩)
-            · rw [e]; exact Or.inl ⟨_, rfl, rfl, Or.inl ⟨_, rfl⟩⟩
+              exact Or.inl (Or.inr (Or.inl ⟨_, rfl, rfl, evm_call7_short hopc h7 hlc (by rw [hc1]; simp; omega)⟩))
+            · rw [e]; exact Or.inl (Or.inl ⟨_, rfl, rfl, Or.inl ⟨_, rfl⟩⟩)
             · rw [e]
               subst hcr
-              refine callGo_corr hs hmem hdep hcodes hS hcb hrel hcall hrest ht (v := v) ?_ ?_
-              · intro hf
-                split at hf
-                · rename_i heq0; exact (toBV256_con hs hwv heq0).symm
-                · cases hf
-              · rw [et]; exact evm_call7 hopc h7 hlc hc1
+              have hstep7 := evm_call7 (p := p) (w := w) hopc h7 hlc hc1
+              have hmask : Evm.addrMask tgt = t := by rw [et]; rfl
+              rw [hmask] at hstep7
+              obtain ⟨r', er, wf, d⟩ := (toBV256_ok hs I hwv.1 hwv.2.1).ok_inj
+              unfold fundOf at hfund
+              rw [er] at hfund
+              cases fund with
+              | none =>
+                have hv0 : v = 0 := by
+                  cases r' with
+                  | con n =>
+                    cases n with
+                    | zero => rw [← hwv.2.2, ← d]; rfl
+                    | succ n => simp at hfund
+                  | sym t' => simp at hfund
+                subst hv0
+                exact Or.inl (callGo_corr hs hmem hdep hcodes hS hcb hrel hcall hrest ht hstep7)
+              | some fvt =>
+                have hfv : fvt = asZ3 256 r' := by
+                  cases r' with
+                  | con n =>
+                    cases n with
+                    | zero => simp at hfund
+                    | succ n => simpa using hfund.symm
+                  | sym t' => simpa using hfund.symm
+                obtain ⟨z1, z2, z3⟩ := asZ3_ok (I := I) wf
+                exact Or.inr ⟨t, v, fvt, ao, al, ro, rl, rest, crest, rfl, h7, hrest, ht, by rw [hfv]; exact z1,
+                  by rw [hfv]; exact z2, by rw [hfv, z3, d, hwv.2.2], hstep7⟩
         · rw [if_neg h7]
           have h6 : op = 0xf4 ∨ op = 0xfa := by
             rcases hcall with h | h | h | h
@@ -383,15 +459,183 @@ theorem callOut_corr (hs : SimpSound s) (hmem : cfg.maxMem + 32 ≤ p.memLimit) 
             · exact absurd (Or.inr h) h7
             · exact Or.inl h
             · exact Or.inr h
-          rcases callArgs_cases (cfg := cfg) (codes := codes) (cs := cs) (op := op) (t := t) (fundOk := true) hs hr0
-            with ⟨e, hlt⟩ | e | ⟨ao, al, ro, rl, rest, crest, hcr, hrest, e⟩
+          rcases callArgs_cases (o := o) (cfg := cfg) (codes := codes) (cs := cs) (op := op) (t := t) (fund := none)
+              hs hr0 with ⟨e, hlt⟩ | e | ⟨ao, al, ro, rl, rest, crest, hcr, hrest, e⟩
           · rw [e]
-            exact Or.inr (Or.inl ⟨_, rfl, rfl, evm_call6_short hopc h6 hlc (by rw [hc1]; simp; omega)⟩)
-          · rw [e]; exact Or.inl ⟨_, rfl, rfl, Or.inl ⟨_, rfl⟩⟩
+            exact Or.inl (Or.inr (Or.inl ⟨_, rfl, rfl, evm_call6_short hopc h6 hlc (by rw [hc1]; simp; omega)⟩))
+          · rw [e]; exact Or.inl (Or.inl ⟨_, rfl, rfl, Or.inl ⟨_, rfl⟩⟩)
           · rw [e]
             subst hcr
-            refine callGo_corr hs hmem hdep hcodes hS hcb hrel hcall hrest ht (v := 0) (fun _ => rfl) ?_
+            refine Or.inl (callGo_corr hs hmem hdep hcodes hS hcb hrel hcall hrest ht ?_)
             rw [et]; exact evm_call6 hopc h6 hlc hc1
+      · exact Or.inl (Or.inl ⟨_, rfl, rfl, Or.inl ⟨_, rfl⟩⟩)
+
+end
+
+/-! ### BALANCE / SELFBALANCE -/
+
+theorem isBalOp_iff (op : Nat) : isBalOp op = true ↔ (op = 0x31 ∨ op = 0x47) := by
+  simp [isBalOp]
+
+theorem evm_balance {p : Evm.Params} {w : Evm.World} {f : Evm.Frame} (hop : (f.code[f.pc]?).getD 0 = 0x31)
+    (hl : ¬ f.stack.length > 1024) :
+    Evm.step p w f = Evm.op1 w f fun a => w.balanceOf (Evm.addrMask a) := by
+  unfold Evm.step; simp only [hop, hl, ↓reduceIte]
+
+theorem evm_selfbalance {p : Evm.Params} {w : Evm.World} {f : Evm.Frame} (hop : (f.code[f.pc]?).getD 0 = 0x47)
+    (hl : ¬ f.stack.length > 1024) :
+    Evm.step p w f = .next w (Evm.push f (w.balanceOf f.this)) := by
+  unfold Evm.step; simp only [hop, hl, ↓reduceIte]
+
+section
+variable {I : Interp} {s : Simp}
+
+/-- `uint160(pop()).as_z3()`: a well-formed 160-bit term denoting the masked word -/
+theorem reBV160_term (hs : SimpSound s) {v : HV} {n : Nat} (hw : WordRel I v n) {sz : Nat} {r : Rep}
+    (h : reBV s v 160 = .bv sz r) :
+    (asZ3 160 r).WF ∧ (asZ3 160 r).width = 160 ∧ (asZ3 160 r).eval I = Evm.addrMask n := by
+  cases v with
+  | bv size r0 =>
+    obtain ⟨r', e, wf, d⟩ := (reBV_bv_ok hs I (by decide : 0 < 160) hw.1).ok_inj
+    rw [h] at e
+    cases e
+    obtain ⟨z1, z2, z3⟩ := asZ3_ok (I := I) wf
+    exact ⟨z1, z2, by rw [z3, d, hw.2.2]; rfl⟩
+  | bool r0 =>
+    obtain ⟨r', e, wf, d⟩ := (reBV_bool_ok hs I (by decide : 0 < 160) hw.1).ok_inj
+    rw [h] at e
+    cases e
+    obtain ⟨z1, z2, z3⟩ := asZ3_ok (I := I) wf
+    refine ⟨z1, z2, ?_⟩
+    rw [z3, d, hw.2.2]
+    have hlt : n < 2 ^ 160 := by
+      have := denote_lt wf
+      rw [d, hw.2.2] at this
+      exact this
+    exact (Nat.mod_eq_of_lt hlt).symm
+
+end
+
+section
+variable {I : Interp} {p : Evm.Params} {S : Nat → Prop} {w0 : Evm.World}
+variable {cs : CState} {w : Evm.World} {f : Evm.Frame} {kcs : List CCont}
+variable {s : Simp} {o : Oracle} {cfg : Cfg}
+
+/-- the running state with conditions appended to its path (and whatever happened to pc / stack / memory / return
+    data, as described by `f'`) -/
+theorem RelC.withConds (hs : SimpSound s) (hrel : RelC I p S w0 cs w f kcs) {conds : List B}
+    (hwf : ∀ c ∈ conds, c.WF) {X : SState} (hXs : X.subst = cs.st.subst) (hXp : X.path = cs.st.path)
+    (hXsto : X.storage = cs.st.storage) (hXtr : X.transient = cs.st.transient) {st' : SState}
+    (hst : ∃ Y : SState, Y = conds.foldl (addCond s) X ∧ st'.subst = Y.subst ∧ st'.path = Y.path ∧
+      st'.storage = Y.storage ∧ st'.transient = Y.transient)
+    {f' : Evm.Frame} (hctx : f'.code = f.code ∧ f'.caller = f.caller ∧ f'.value = f.value ∧ f'.this = f.this ∧
+      f'.calldata = f.calldata ∧ f'.isStatic = f.isStatic ∧ f'.depth = f.depth)
+    (hpc : f'.pc = st'.pc) (hstk : StackRel I st'.stack f'.stack) (hm : MemRel I st'.mem f'.mem)
+    (hrd : MemRel I st'.returndata f'.returndata) :
+    RelC I p S w0 { cs with st := st' } w f' kcs := by
+  obtain ⟨Y, hY, y1, y2, y3, y4⟩ := hst
+  obtain ⟨c1, c2, c3, c4, c5, c6, c7⟩ := hctx
+  have hR := hrel.hR
+  have hsubX : SubstOk I X := hR.subst.same hXs hXp
+  have hsubY : SubstOk I Y := by rw [hY]; exact addConds_substOk hs hwf hsubX
+  refine ⟨⟨c1.trans hR.code, hpc, hstk, hR.env.congr c2 c3 c4 c5 c6, hsubY.same y1 y2, hm, hrd⟩, c4.trans hrel.this,
+    hrel.inS, c7.trans hrel.depth, hrel.hcode, hrel.hW.congr (fun a _ => ?_), hrel.hbal, hrel.conts⟩
+  have e1 : st'.storage = cs.st.storage := by rw [y3, hY, (addConds_storage s conds X).1, hXsto]
+  have e2 : st'.transient = cs.st.transient := by rw [y4, hY, (addConds_storage s conds X).2, hXtr]
+  simp only [viewOf, e1, e2]
+
+/-- BALANCE / SELFBALANCE: no claim, a stack underflow, or one successor whose path is the old one with the
+    conditions `balance_of` appends -/
+def BalCorr (I : Interp) (p : Evm.Params) (S : Nat → Prop) (w0 : Evm.World) (s : Simp) (cs : CState) (w : Evm.World)
+    (f : Evm.Frame) (kcs : List CCont) (lo : LocalOut) : Prop :=
+  (∃ e, lo = { ends := [e] } ∧ e.st = cs.st ∧ ((∃ r', e.out = .stuck r') ∨ e.tag ≠ .normal)) ∨
+  (∃ h, lo = localHalt cs.st h ∧ haltWith h [] = h ∧ Evm.step p w f = .halt w h) ∨
+  (∃ cs' f' conds X, lo = { next := [cs'] } ∧ (∀ c ∈ conds, c.WF) ∧ X.path = cs.st.path ∧
+      cs'.st.path = (conds.foldl (addCond s) X).path ∧ cs'.conts = cs.conts ∧
+      RelC I p S w0 cs' w f' kcs ∧ (∀ r, RunStack p w f kcs r ↔ RunStack p w f' kcs r) ∧
+      (BalBound w → ∀ c ∈ conds, c.eval I = true))
+
+theorem balOut_corr (hs : SimpSound s) (ho : OracleSound o) (hb : BalHyp I cfg w0)
+    (hrel : RelC I p S w0 cs w f kcs) (hsat : Sat I cs.st.path) {op : Nat} (hop : opAt cs.code cs.st.pc = op)
+    (hbalop : op = 0x31 ∨ op = 0x47) (hl : ¬ cs.st.stack.length > 1024) :
+    BalCorr I p S w0 s cs w f kcs (balOut s o cfg cs op) := by
+  have hR := hrel.hR
+  have hopc : (f.code[f.pc]?).getD 0 = op := hR.op_eq.trans hop
+  have hlen := hR.stack.length
+  have hlc : ¬ f.stack.length > 1024 := by rw [← hlen]; exact hl
+  -- the common tail: the key `k` denotes the address `a`, the concrete step pushes its balance
+  have go : ∀ (k : T) (rest : List HV) (crest : List Nat) (a : Nat), k.WF → k.width = 160 → k.eval I = a →
+      StackRel I rest crest →
+      Evm.step p w f = .next w { f with stack := w.balanceOf a % Evm.W :: crest, pc := f.pc + 1 } →
+      BalCorr I p S w0 s cs w f kcs
+        (match balanceOfM s o cfg cs.st.path cs.bal k with
+         | none => localStuck cs.st (.unsupported op)
+         | some (v, conds) =>
+           { next := [{ cs with st := pushTerm s (conds.foldl (addCond s) { cs.st with stack := rest }) v }] }) := by
+    intro k rest crest a hk hkw hka hrest hstep
+    cases hbo : balanceOfM s o cfg cs.st.path cs.bal k with
+    | none => exact Or.inl ⟨_, rfl, rfl, Or.inl ⟨_, rfl⟩⟩
+    | some vc =>
+      obtain ⟨v, conds⟩ := vc
+      obtain ⟨v1, v2, v3, cwf, ctrue⟩ := balanceOfM_ok hs ho hb hsat hrel.hbal hk hkw hbo
+      simp only
+      refine Or.inr (Or.inr ⟨_, _, conds, { cs.st with stack := rest }, rfl, cwf, rfl, rfl, rfl, ?_,
+        fun r => runStack_next hstep kcs r, fun hbb c hc => ?_⟩)
+      · refine hrel.withConds hs cwf (X := { cs.st with stack := rest }) rfl rfl rfl rfl
+          ⟨_, rfl, rfl, rfl, rfl, rfl⟩ ⟨rfl, rfl, rfl, rfl, rfl, rfl, rfl⟩ ?_ ?_ ?_ ?_
+        · show f.pc + 1 = (conds.foldl (addCond s) { cs.st with stack := rest }).pc + 1
+          rw [addConds_pc, hR.pc]
+        · show StackRel I (mkBV s (.term v) 256 :: (conds.foldl (addCond s) { cs.st with stack := rest }).stack) _
+          rw [addConds_stack]
+          refine StackRel.cons (wordRel_mkBV hs v1 ?_) hrest
+          rw [v3, hka, ← hrel.hW.bal a]; rfl
+        · show MemRel I (conds.foldl (addCond s) { cs.st with stack := rest }).mem f.mem
+          rw [addConds_mem]; exact hR.mem
+        · show MemRel I (conds.foldl (addCond s) { cs.st with stack := rest }).returndata f.returndata
+          rw [addConds_returndata]; exact hR.retdata
+      · refine ctrue ?_ c hc
+        rw [hka, ← hrel.hW.bal a]; exact hbb.le a
+  unfold balOut
+  simp only
+  by_cases hbal : cfg.balances = true
+  swap
+  · have : (!cfg.balances) = true := by simpa using hbal
+    rw [if_pos this]; exact Or.inl ⟨_, rfl, rfl, Or.inl ⟨_, rfl⟩⟩
+  have : ¬ (!cfg.balances) = true := by simp [hbal]
+  rw [if_neg this]
+  by_cases h47 : op = 0x47
+  · rw [if_pos h47]
+    subst h47
+    by_cases hw160 : cs.env.address.width ≠ 160
+    · rw [if_pos hw160]; exact Or.inl ⟨_, rfl, rfl, Or.inl ⟨_, rfl⟩⟩
+    rw [if_neg hw160]
+    have hstep := evm_selfbalance (p := p) (w := w) hopc hlc
+    rw [push_eq] at hstep
+    have := go cs.env.address cs.st.stack f.stack f.this hR.env.address.1 (by omega) hR.env.address.2.2 hR.stack hstep
+    simpa using this
+  · rw [if_neg h47]
+    have h31 : op = 0x31 := by rcases hbalop with h | h; exact h; exact absurd h h47
+    subst h31
+    cases hcs : cs.st.stack with
+    | nil =>
+      refine Or.inr (Or.inl ⟨.stackUnderflow, rfl, rfl, ?_⟩)
+      have h0 : f.stack = [] := by
+        have := hlen; rw [hcs] at this; exact List.eq_nil_of_length_eq_zero this.symm
+      rw [evm_balance hopc hlc]; unfold Evm.op1; rw [h0]
+    | cons av rest =>
+      have hstk := hR.stack
+      rw [hcs] at hstk
+      obtain ⟨a, crest, hc0, hwa, hrest⟩ := hstk.cons_inv
+      simp only
+      split
+      · rename_i sz r heq
+        obtain ⟨k1, k2, k3⟩ := reBV160_term hs hwa heq
+        have hstep : Evm.step p w f = .next w { f with
+            stack := w.balanceOf (Evm.addrMask a) % Evm.W :: crest, pc := f.pc + 1 } := by
+          rw [evm_balance hopc hlc]; unfold Evm.op1; rw [hc0]
+        have := go (asZ3 160 r) rest crest (Evm.addrMask a) k1 k2 k3 hrest hstep
+        rw [hcs] at this
+        exact this
       · exact Or.inl ⟨_, rfl, rfl, Or.inl ⟨_, rfl⟩⟩
 
 end
@@ -405,10 +649,11 @@ theorem isLogOp_iff (op : Nat) : isLogOp op = true ↔ IsLog op := by
 
 /-- one more event in the world's log and in the model's -/
 theorem WRelM.log {I : Interp} {S : Nat → Prop} {w0 w : Evm.World} {v : Nat → AcctSto}
-    {lg : List (Nat × List Nat × List Nat)} (h : WRelM I S w0 w v lg) (x : Nat × List Nat × List Nat) :
-    WRelM I S w0 { w with logs := w.logs ++ [x] } v (lg ++ [x]) :=
-  ⟨h.hsto, h.htr, h.wf, h.other, h.rest.1, h.rest.2.1, h.rest.2.2.1, h.rest.2.2.2.1,
-   by show w.logs ++ [x] = w0.logs ++ (lg ++ [x]); rw [h.rest.2.2.2.2, List.append_assoc]⟩
+    {lg : List (Nat × List Nat × List Nat)} {bs : Nat → Nat} (h : WRelM I S w0 w v lg bs)
+    (x : Nat × List Nat × List Nat) :
+    WRelM I S w0 { w with logs := w.logs ++ [x] } v (lg ++ [x]) bs :=
+  ⟨h.hsto, h.htr, h.wf, h.other, h.code, h.created,
+   by show w.logs ++ [x] = w0.logs ++ (lg ++ [x]); rw [h.logs, List.append_assoc], h.bal⟩
 
 section
 variable {I : Interp} {p : Evm.Params} {S : Nat → Prop} {w0 : Evm.World}
@@ -485,8 +730,9 @@ theorem logOut_corr (hs : SimpSound s) (hmem : cfg.maxMem + 32 ≤ p.memLimit)
               · right; have : ¬ loc + size > cfg.maxMem := fun h => hm ⟨h0, h⟩
                 omega
             have hstep := evm_log_ok (p := p) (w := w) hopc hlog hlc hc1 (by rw [← hr2.length]; exact hn) hns hok
-            refine Or.inr (Or.inr ⟨_, _, _, kcs, rfl, rfl, ?_, fun r => runStack_next hstep kcs r⟩)
-            refine ⟨?_, ?_, hrel.inS, ?_, hrel.hcode, ?_, hrel.conts⟩
+            refine Or.inr (Or.inr ⟨_, _, _, kcs, rfl, rfl, ?_, fun r => runStack_next hstep kcs r,
+              fun hbb => ⟨hbb.1.congr (fun a => rfl), hbb.2⟩⟩)
+            refine ⟨?_, ?_, hrel.inS, ?_, hrel.hcode, ?_, hrel.hbal, hrel.conts⟩
             · exact hR.next' ⟨touch_code .., touch_caller .., touch_value .., touch_this .., touch_calldata ..,
                 touch_isStatic .., touch_returndata ..⟩ rfl rfl rfl (touch_mem ..) rfl (by show f.pc + 1 = _; rw [hR.pc])
                 (hr2.drop _)
@@ -566,7 +812,7 @@ theorem extOut_corr (hs : SimpSound s) (hmem : cfg.maxMem + 32 ≤ p.memLimit)
     intro t
     have := hcodes t
     unfold Evm.World.codeOf at this ⊢
-    rw [hrel.hW.rest.1]; exact this
+    rw [hrel.hW.code]; exact this
   unfold extOut
   simp only
   cases hcs : cs.st.stack with
@@ -593,7 +839,8 @@ theorem extOut_corr (hs : SimpSound s) (hmem : cfg.maxMem + 32 ≤ p.memLimit)
         have hstep : Evm.step p w f = .next w { f with
             stack := ((w.codeOf (Evm.addrMask a)).getD []).length % Evm.W :: c0, pc := f.pc + 1 } := by
           rw [evm_extcodesize hopc hlc]; unfold Evm.op1; rw [hc0]
-        refine Or.inl (Or.inr (Or.inr ⟨_, w, _, kcs, rfl, rfl, ?_, fun r => runStack_next hstep kcs r⟩))
+        refine Or.inl (Or.inr (Or.inr ⟨_, w, _, kcs, rfl, rfl, ?_, fun r => runStack_next hstep kcs r,
+          fun hbb => hbb⟩))
         refine hrel.step (CReach.single hstep) ?_ hrel.wrel
         refine hR.next' ⟨rfl, rfl, rfl, rfl, rfl, rfl, rfl⟩ rfl rfl rfl rfl rfl (by show f.pc + 1 = _; rw [hR.pc]) ?_
         refine StackRel.cons ?_ hr0
@@ -671,24 +918,24 @@ def CallShape (cs : CState) (lo : LocalOut) : Prop :=
   (∃ cs', lo = { next := [cs'] } ∧ cs'.st.path = cs.st.path ∧ (cs'.conts = cs.conts ∨ ∃ k, cs'.conts = k :: cs.conts))
 
 section
-variable {s : Simp} {cfg : Cfg} {codes : List (Nat × List Nat)} {cs : CState} {op t : Nat} {fundOk : Bool}
+variable {s : Simp} {cfg : Cfg} {codes : List (Nat × List Nat)} {cs : CState} {op t : Nat} {fund : Option T} {o : Oracle}
 
 macro "call_leaf" : tactic =>
   `(tactic| first | exact Or.inl ⟨_, rfl, rfl⟩ | exact Or.inr ⟨_, rfl, rfl, Or.inl rfl⟩
                   | exact Or.inr ⟨_, rfl, rfl, Or.inr ⟨_, rfl⟩⟩)
 
 theorem callGo_shape {ao al ro rl : Nat} {rest : List HV} :
-    CallShape cs (callGo s cfg codes cs op t fundOk ao al ro rl rest) := by
+    CallShape cs (callGo s o cfg codes cs op t fund ao al ro rl rest) := by
   unfold callGo
   simp only
   (repeat' split) <;> call_leaf
 
-theorem callArgs_shape {r : List HV} : CallShape cs (callArgs s cfg codes cs op t fundOk r) := by
+theorem callArgs_shape {r : List HV} : CallShape cs (callArgs s o cfg codes cs op t fund r) := by
   unfold callArgs
   simp only
   (repeat' split) <;> first | call_leaf | exact callGo_shape
 
-theorem callOut_shape : CallShape cs (callOut s cfg codes cs op) := by
+theorem callOut_shape : CallShape cs (callOut s o cfg codes cs op) := by
   unfold callOut
   simp only
   (repeat' split) <;> first | call_leaf | exact callArgs_shape
@@ -727,7 +974,7 @@ variable {s : Simp} {o : Oracle} {cfg : Cfg} {codes : List (Nat × List Nat)} {c
 theorem stepC_eq :
     stepC s o cfg codes cs =
       if ¬ cs.st.stack.length > 1024 ∧ isCallOp (opAt cs.code cs.st.pc) = true then
-        finish cs (callOut s cfg codes cs (opAt cs.code cs.st.pc))
+        finish cs (callOut s o cfg codes cs (opAt cs.code cs.st.pc))
       else if ¬ cs.st.stack.length > 1024 ∧ isLogOp (opAt cs.code cs.st.pc) = true then
         finish cs (logOut s cfg cs (opAt cs.code cs.st.pc))
       else if ¬ cs.st.stack.length > 1024 ∧ isExtOp (opAt cs.code cs.st.pc) = true then
